@@ -921,6 +921,10 @@ pub fn run_c13(p: &Params) -> Outcome {
             }
         }
     }));
+    // a lag that begins while a batched stream is merging messages is only reachable with a writer on another thread
+    if p.part != "seq" {
+        out.merge(crate::runners_thr::run_rounds("C13", p, "c13-threads", p.n(1_500, 40_000), crate::runners_thr::round_c08_threads));
+    }
     out
 }
 
